@@ -218,4 +218,52 @@ SEEDED CHANGE C19b (independently written, /verif/seeded/C19b) - first MISSED, n
           unchanged /repo (2b37706): quick exit 0 twice, thorough exit 0 once; the five listed known findings
           reproduce under their listed signatures (the new tokens sort after "commit(" so the shortest histories of
           the known findings are unchanged). Cost: quick +15 s CPU (part (b) 1,094 -> 5,566 states at depth 5).
+
+=====================================================================================================
+SEEDED CHANGE C19f (independently written, /verif/seeded/C19f) - first MISSED, now caught
+=====================================================================================================
+
+ mutant   /verif/mutants/c19-seeded-f-verify-uses-next-set-at-head.patch (= seeded/C19f/patch.diff): Pool.verify judges
+          evidence whose height equals the pool state's LastBlockHeight against state.Validators (the set of the
+          NEXT height) instead of LoadValidators(evidence height).
+ miss     `./run.sh C19 quick` exited 0. The fixture chain does have a set change (set A signs 1..3, set B from 4:
+          V1 20->25, V3 leaves, V4 joins, total 75->80), and old-set evidence was enumerated - but only from pool
+          heads 5 and 10, where the state's Validators equal the set of the head. No enumerated pool stood AT
+          head 3, the one head whose state already carries the other set; part (b) starts at head 5 (static
+          set B) and part (c) runs a static set. The combination "evidence height == head AND the set changes
+          with the next height" never occurred.
+ now      (a)  matrix: pool heads 3 and 4 added; combination (head 3, evidence 3) is FULL in quick (15,360 points),
+               (3,2) (3,1) (4,4) (4,3) reduced in quick / full in thorough. The accused dimension has five values:
+               V1 (member, power changes with the next set), never a validator, validator of the other set only
+               (now with the index it has in the set it does belong to, as a forger would state it), member of
+               this set only (V3 leaves / V4 joined), V2 (same power in both sets, only the total changes).
+               Together with the power dimensions this contains the three statements {powers as of h, powers as
+               of h+1, address not in the set at h}. Findings of the matrix are now grouped per (kind of accused,
+               expiry class, set) and name every failing path in one signature.
+          (a') set-change worlds (partv.go): live chains (real store + pool + executor on one database) at heads
+               2, 3, 4 (thorough: 5, 6 too), every accused V1..V5, evidence heights {head, head-1, older}, statements
+               {genuine, as of the next height}, paths peer (codec + AddEvidence), block (decode + CheckEvidence),
+               commit (block of the next height through the real ValidateBlock + ApplyBlock), and the consensus path:
+               reports of heights {head, head+1} in the three wrappings of tryAddVote, then the next block; afterwards
+               exactly the canonical evidence (powers of the set OF THE EVIDENCE HEIGHT, that block's time) must be
+               pending and pass CheckEvidence. 360 cases in quick. The reference is refSet(evidence height).
+ result   seeded change: exit 1, twice, identical 12 signatures (all at "pool head = last height of the old set"):
+              C19|part=a|class=diff-hash/expiry=fresh,set=old,pool-head-is-last-height-of-set|path=peer+block|oracle=valid-rejected
+              C19|part=a|class=diff-hash@member-of-this-set-only/...|path=peer+block|oracle=valid-rejected
+              C19|part=a|class=diff-hash@member-with-the-same-power-in-both-sets/...|path=peer+block|oracle=valid-rejected
+              C19|part=a|class=wrong-total-power+wrong-validator-power|path=peer+direct+block+check-direct|oracle=unsound-accept
+              C19|part=a|class=wrong-total-power|path=peer+direct+block+check-direct|oracle=unsound-accept
+              C19|part=a|class=not-in-set-of-height|path=peer+direct+block+check-direct|oracle=unsound-accept
+              C19|part=a|world=set-change|accused=member,power-changes-at-next-height|height=head|statement=genuine|path=block+commit+peer|oracle=valid-rejected
+              C19|part=a|world=set-change|accused=member,only-total-changes-at-next-height|height=head|statement=genuine|path=block+commit+peer|oracle=valid-rejected
+              C19|part=a|world=set-change|accused=member,leaves-at-next-height|height=head|statement=genuine|path=block+commit+peer|oracle=valid-rejected
+              C19|part=a|world=set-change|accused=member,power-changes-at-next-height|height=head|statement=as-of-next-height|path=block+commit+peer|oracle=unsound-accept
+              C19|part=a|world=set-change|accused=member,only-total-changes-at-next-height|height=head|statement=as-of-next-height|path=block+commit+peer|oracle=unsound-accept
+              C19|part=a|world=set-change|accused=not-member,joins-at-next-height|height=head|statement=as-of-next-height|path=block+commit+peer|oracle=unsound-accept
+          The consensus path is not touched by this change (processConsensusBuffer loads the set of the evidence
+          height itself); that it bites is shown by mutants/c19-buffer-builds-with-current-set.patch
+          (processConsensusBuffer builds with state.Validators): exit 1, 12 signatures
+          ...|path=consensus|oracle={consensus-evidence-not-kept,unsound-accept} at heights head and head+1.
+          unchanged /repo (2cbc26b): quick exit 0 twice (5 known findings, same signatures), thorough exit 0 once
+          (139 s). Quick cost unchanged within noise (user CPU 58-72 s before and after; part (a) 1.1 s -> 1.7 s).
 */
